@@ -51,7 +51,11 @@ NewTx == /\ ~done /\ arch # <<>> /\ CurBlocks # <<>> /\ Last(CurBlocks).entries 
               IN SetLastEpoch([CurEpoch EXCEPT !.blocks[nb].entries[ne].txs = Append(@, tx)])
          /\ nsig' = nsig + 1 /\ UNCHANGED done
 NTx == Len(AllTxRows(arch))
-Finish == /\ ~done /\ arch # <<>> /\ EpochHasTx(CurEpoch) /\ Len(arch) >= MinEpochs /\ NTx >= MinTx /\ done' = TRUE /\ UNCHANGED <<arch, nsig>>
+\* the walk cannot grow any further (every bound reached): finishing is allowed even below MinTx / MinEpochs
+Stuck == /\ Len(CurBlocks) = MaxBlocks /\ Len(Last(CurBlocks).entries) = MaxEntries
+         /\ Len(Last(Last(CurBlocks).entries).txs) = MaxTxs
+         /\ (Len(arch) = MaxEpochs \/ \A e \in EpochSet : e <= CurEpoch.epoch)
+Finish == /\ ~done /\ arch # <<>> /\ EpochHasTx(CurEpoch) /\ ((Len(arch) >= MinEpochs /\ NTx >= MinTx) \/ Stuck) /\ done' = TRUE /\ UNCHANGED <<arch, nsig>>
 GNext == NewEpoch \/ NewBlock \/ NewEntry \/ NewTx \/ Finish
 GSpec == GInit /\ [][GNext]_gvars
 Emit == done => PrintT("@@CASE@@ " \o ToJson([arch |-> arch]))
